@@ -328,7 +328,12 @@ def two_theta(
     b2 = scattered_beam / L2(scattered_beam=scattered_beam)
 
     y = sc.norm(b1 - b2)
-    b2 += b1
+    if set(b1.dims).issubset(b2.dims):
+        b2 += b1
+    else:
+        # The incident beam has a dim that the scattered beam lacks
+        # (e.g., per-run source positions and a single detector).
+        b2 = b2 + b1
     x = sc.norm(b2)
     res = sc.atan2(y=y, x=x, out=x)
     res *= 2
